@@ -417,6 +417,81 @@ def stdin_offset_cases(exe, w, rnd):
     return v, n, classes
 
 
+def faulty_input_cases(exe, w, rnd):
+    """One input that delivers some bytes and then fails with a read error (the slave side of a
+    pseudo-terminal whose master is closed after the bytes were consumed), among good inputs: the
+    good ones must still be hashed correctly, each on its own, and the exit status must be non-zero."""
+    import fcntl
+    import pty
+    import struct
+    import termios
+    import time
+    import tty
+    v = []
+    n = 0
+    classes = set()
+    good = [f[0] for f in w.files[:3]]
+    for variant, order in enumerate([("pty", 0), (0, "pty", 1), ("pty", 0, 1), (0, "pty"), ("pty", 2)]):
+        for flags in ([], ["--no-mmap"]) if variant < 3 else (["--keyed"],) if variant == 3 else (["--length", "70", "--seek", "5"],):
+            try:
+                master, slave = pty.openpty()
+                tty.setraw(slave)
+                ptyname = os.ttyname(slave)
+            except OSError as e:
+                v.append(("inconclusive", "no pseudo-terminal: %s" % e))
+                return v, n, classes
+            payload = rnd.randbytes(rnd.choice([1, 100, 1500, 3000]))
+            os.write(master, payload)
+            t0 = time.time()
+            while struct.unpack("i", fcntl.ioctl(slave, termios.FIONREAD, b"\0\0\0\0"))[0] != len(payload) and time.time() - t0 < 20:
+                time.sleep(0.002)
+            argv = [x for x in flags] + [ptyname if o == "pty" else good[o] for o in order]
+            env = dict(os.environ)
+            env["RUST_BACKTRACE"] = "0"
+            key = w.keys[0]
+            p = subprocess.Popen([exe] + argv, cwd=w.dir, stdin=subprocess.PIPE, stdout=subprocess.PIPE, stderr=subprocess.PIPE, env=env)
+            try:
+                if "--keyed" in flags:
+                    p.stdin.write(key)
+                p.stdin.close()
+            except OSError:
+                pass
+            drained = False
+            t0 = time.time()
+            while time.time() - t0 < 30:
+                if struct.unpack("i", fcntl.ioctl(slave, termios.FIONREAD, b"\0\0\0\0"))[0] == 0:
+                    drained = True
+                    break
+                if p.poll() is not None:
+                    break
+                time.sleep(0.002)
+            os.close(master)  # hang-up: the next read on the slave fails with EIO
+            out = p.stdout.read()
+            err = p.stderr.read()
+            rc = p.wait()
+            os.close(slave)
+            n += 1
+            classes.add("faulty-input/%d/%s" % (variant, "-".join(flags) or "default"))
+            if not drained:
+                v.append(("inconclusive", "faulty-input case: the pty was never read"))
+                continue
+            exp = b""
+            for o in order:
+                if o == "pty":
+                    continue
+                fname = good[o]
+                if "--keyed" in flags:
+                    hx = w.out(fname, "keyed", key, None, 0, 32).hex()
+                elif "--length" in flags:
+                    hx = w.out(fname, "hash", None, None, 5, 70).hex()
+                else:
+                    hx = w.out(fname, "hash", None, None, 0, 32).hex()
+                exp += hx.encode() + b"  " + fname.encode() + b"\n"
+            if rc == 0 or out != exp:
+                v.append(("C12/hash/input-after-failed-input", "b3sum %s where %s delivers %d bytes and then fails with EIO: exit %s, stdout %r, expected exactly the lines of the good inputs %r (stderr %r)" % (argv, ptyname, len(payload), rc, out[:300], exp[:300], err[-200:])))
+    return v, n, classes
+
+
 def stream_cases(exe, w, rnd, thorough):
     """Inputs that are not regular files: a FIFO fed in bursts (data arrives in several short reads),
     a seekable sysfs file that cannot be mapped. With and without --no-mmap, several modes."""
@@ -512,7 +587,7 @@ def run(exe, seed, thorough, scale=1.0):
             violations.append((sig, detail, -2))
         sn += tn
         classes |= tclasses
-        for fn in (lambda: stdin_offset_cases(exe, w, rnd), lambda: long_path_cases(exe, w.dir, "C12/check")):
+        for fn in (lambda: stdin_offset_cases(exe, w, rnd), lambda: long_path_cases(exe, w.dir, "C12/check"), lambda: faulty_input_cases(exe, w, rnd)):
             xv, xn, xclasses = fn()
             for sig, detail in xv:
                 if sig == "inconclusive":
@@ -540,7 +615,34 @@ def run(exe, seed, thorough, scale=1.0):
 # C13 end-to-end: real files with hostile names -> b3sum [--tag] -> lines -> parse / --check
 # ---------------------------------------------------------------------------------------------
 NAME_PIECES = [b" ", b"  ", b") = ", b"BLAKE3 (", b"\\", b"\\\\", b"\r", b"\n", b"\\n", b"\\r", b"a", b"b", b"dir", b"\xc3\xa9", b"\xe5\x90\xa6",
-               b"\xf0\x9f\x98\x80", b"\xff", b"\xc3", b"\xef\xbf\xbd", b"=", b"(x)", b"-", b"+", b"'", b"\"", b"*", b"\t"]
+               b"\xf0\x9f\x98\x80", b"\xff", b"\xc3", b"\xef\xbf\xbd", b"=", b"(x)", b"-", b"+", b"'", b"\"", b"*", b"\t",
+               # line / paragraph separators other than CR and LF, other Unicode white space, control characters
+               b"\xc2\x85", b"\xe2\x80\xa8", b"\xe2\x80\xa9", b"\xc2\xa0", b"\xe3\x80\x80", b"\xef\xbb\xbf", b"\x0b", b"\x0c", b"\x01", b"\x1b[31m", b"\x7f"]
+TRAILERS = [b"\xc2\x85", b"\xe2\x80\xa8", b"\xe2\x80\xa9", b"\xc2\xa0", b"\xe3\x80\x80", b"\xef\xbb\xbf", b"\x0b", b"\x0c", b"\x01", b" ", b"\t", b"\x7f"]
+
+
+def run_on_tty(argv, cwd, env):
+    """Run argv with standard output on a pseudo-terminal (raw mode, so that what the program writes
+    arrives unchanged) and return (exit status, bytes written)."""
+    import pty
+    import tty
+    master, slave = pty.openpty()
+    tty.setraw(slave)
+    p = subprocess.Popen(argv, cwd=cwd, stdout=slave, stderr=subprocess.PIPE, stdin=subprocess.DEVNULL, env=env)
+    os.close(slave)
+    out = b""
+    while True:
+        try:
+            chunk = os.read(master, 65536)
+        except OSError:
+            break
+        if not chunk:
+            break
+        out += chunk
+    os.close(master)
+    p.stderr.read()
+    p.wait()
+    return p.returncode, out
 
 
 def representable(name):
@@ -568,6 +670,10 @@ def run_names(b3sum, b3mon, seed, thorough, scale=1.0):
             for k0 in range(0, 80, 8):
                 for tagged in (False, True):
                     systematic.append(([b"a" * k + sep + b"b" for k in range(k0, k0 + 8)], tagged))
+        # names that end in (or consist of a letter and) a separator-like character, both forms
+        for tagged in (False, True):
+            systematic.append(([b"setup.sh" + t for t in TRAILERS[:6]], tagged))
+            systematic.append(([b"setup.sh" + t for t in TRAILERS[6:]] + [b"setup.sh"], tagged))
         for bi in range(len(systematic) + nbatches):
             names = []
             sub = os.path.join(d, b"b%d" % bi)
@@ -602,9 +708,17 @@ def run_names(b3sum, b3mon, seed, thorough, scale=1.0):
             argv = [b3sum.encode()] + ([b"--tag"] if tag else []) + names
             env = dict(os.environ)
             env["RUST_BACKTRACE"] = "0"
-            p = subprocess.run(argv, cwd=sub, stdout=subprocess.PIPE, stderr=subprocess.PIPE, env=env)
+            on_tty = (bi % 3 == 2)
+            if on_tty:
+                # the same through a terminal: what is printed there is what gets copied into checkfiles
+                class _R:
+                    pass
+                p = _R()
+                p.returncode, p.stdout = run_on_tty(argv, sub, env)
+            else:
+                p = subprocess.run(argv, cwd=sub, stdout=subprocess.PIPE, stderr=subprocess.PIPE, env=env)
             evaluations += 1
-            form = "tag" if tag else "plain"
+            form = ("tag" if tag else "plain") + ("-on-tty" if on_tty else "")
             lines = p.stdout.split(b"\n")
             if lines and lines[-1] == b"":
                 lines.pop()
